@@ -2,6 +2,7 @@
 # usage: selftest.sh <name> <patch-file | -R:commit> <prop>...
 # Applies the change to a scratch copy of /repo's HEAD (outside /repo and /verif), runs the given
 # properties' quick checks against it (VERIF_REPO), removes the copy and its build output.
+# VERIF_HOME=<copy of /verif> runs the checks from that copy (own Lean tree), so that self-tests do not disturb work in /verif/lean.
 NAME="$1"; P="$2"; shift 2
 D=/tmp/selftest_$NAME
 rm -rf "/tmp/selftest_$NAME"; mkdir -p "$D"
@@ -12,12 +13,12 @@ case "$P" in
   -R:*) git -C /repo show "${P#-R:}" | git apply -R - || { echo "cannot revert"; exit 2; } ;;
   *) git apply "$P" || { echo "cannot apply"; exit 2; } ;;
 esac
-cd /verif
+cd "${VERIF_HOME:-/verif}"
 for prop in "$@"; do
   echo "=== $NAME $prop"
   VERIF_REPO="$D" ./check "$prop" --tier ${TIER:-quick} | grep -E "VIOLATION|KNOWN|OK property|oracle |correspondence|proof|consts" | cut -c1-300
 done
 H=/tmp/verif_harness_$(printf %s "$D" | sha1sum | cut -c1-10)
 if [ -z "$KEEP" ]; then rm -rf "/tmp/selftest_$NAME"; rm -rf "/tmp/verif_harness_$(printf %s "/tmp/selftest_$NAME" | sha1sum | cut -c1-10)"; fi
-python3 /verif/tools/gen_consts.py >/dev/null
-/verif/translator/target/debug/translator --repo /repo --out /verif/lean/RenetVerif/Generated/Src.lean >/dev/null 2>&1
+python3 "${VERIF_HOME:-/verif}/tools/gen_consts.py" >/dev/null
+"${VERIF_HOME:-/verif}/translator/target/debug/translator" --repo /repo --out "${VERIF_HOME:-/verif}/lean/RenetVerif/Generated/Src.lean" >/dev/null 2>&1
